@@ -70,6 +70,43 @@ class FuncView:
         r = self.reachable_from_entry(cut_edges={(cond, label)})
         return target not in r
 
+    def edge_guards(self, cond, label, target):
+        """`target` executes only after `cond` took `label` *this time round*: cond dominates target and
+        target is not reachable from cond's other successors without passing cond again (loop safe)."""
+        if not self.dominates(cond, target):
+            return False
+        for m, l in self.cfg.succ[cond]:
+            if l == "exc" or l == label:
+                continue
+            if target in self.cfg.reachable_from(m, True, avoid={cond}):
+                return False
+        return True
+
+    def guard_for(self, target, test_pred, want_leave=None):
+        """Find (cond, continue-label) such that cond's test satisfies test_pred, the other branch leaves
+        (raise/return/continue/break, optionally restricted to want_leave kinds) and the continue-label
+        edge guards target.  Also accepts the inverted form `if ok: <target>`.  Returns (cond, label) or None."""
+        for c in self.conds(test_pred):
+            for lab in (True, False):
+                other = not lab
+                kinds = self.leaves(c, other)
+                if want_leave is not None:
+                    if not kinds or not kinds <= set(want_leave):
+                        # inverted form: the target sits inside the branch and the other branch need not leave
+                        if self.edge_guards(c, lab, target) and self._inside_branch(c, lab, target):
+                            return c, lab
+                        continue
+                if self.edge_guards(c, lab, target):
+                    return c, lab
+        return None
+
+    def _inside_branch(self, cond, label, target):
+        ifnode = cond.extra
+        if not isinstance(ifnode, ast.If) or target.ast is None:
+            return False
+        body = ifnode.body if label is True else ifnode.orelse
+        return any(x is target.ast for b in body for x in ast.walk(b))
+
     def every_path_to_exit_passes(self, frm, via):
         """Every normal path frm -> exit passes through a node in via (frm itself excluded)."""
         cfg = self.cfg
